@@ -62,6 +62,12 @@ def spec():
                              "responses": {"200": ok}}},
         "/raw": {"post": {"operationId": "sendRaw", "parameters": [_p("n", "query")],
                           "requestBody": {"required": True, "content": {"application/octet-stream": {"schema": {"type": "string", "format": "binary"}}}}, "responses": {"200": ok}}},
+        "/note": {"post": {"operationId": "sendNote", "requestBody": {"required": True, "content": {"text/plain": {"schema": {"type": "string"}}}}, "responses": {"200": ok}}},
+        "/xml": {"put": {"operationId": "sendXml", "requestBody": {"required": True, "content": {"application/xml": {"schema": {"type": "string"}}}}, "responses": {"200": ok}}},
+        "/snapshots/{takenAt}/{day}": {"get": {"operationId": "getSnapshot", "parameters": [_p("takenAt", "path", True, {"type": "string", "format": "date-time"}),
+                                                                                            _p("day", "path", True, {"type": "string", "format": "date"}),
+                                                                                            _p("since", "query", False, {"type": "string", "format": "date-time"})],
+                                                "responses": {"200": ok}}},
         "/multi": {"post": {"operationId": "sendMulti", "parameters": [_p("mode", "query"), _p("X-M", "header")],
                             "requestBody": {"required": True, "content": {"application/json": {"schema": {"$ref": "#/components/schemas/Item"}},
                                                                           "application/x-www-form-urlencoded": {"schema": {"type": "object"}}}},
@@ -86,6 +92,10 @@ OPS = {
     "send_form": dict(method="POST", path="/form", params=[], body=("form_data", "data", "strdict")),
     "upload": dict(method="POST", path="/upload", params=[], body=("files", "files", "filedict")),
     "send_raw": dict(method="POST", path="/raw", params=[("n", "n", "query", False, "str")], body=("bytes_content", "data", "bytes")),
+    "send_note": dict(method="POST", path="/note", params=[], body=("bytes_content", "data", "bytes")),
+    "send_xml": dict(method="PUT", path="/xml", params=[], body=("bytes_content", "data", "bytes")),
+    "get_snapshot": dict(method="GET", path="/snapshots/{takenAt}/{day}", params=[
+        ("taken_at", "takenAt", "path", True, "datetime"), ("day", "day", "path", True, "date"), ("since", "since", "query", False, "datetime")], body=None),
     "send_multi/json": dict(method="POST", path="/multi", py="send_multi", params=[("mode", "mode", "query", None, "str"), ("x_m", "X-M", "header", None, "str")],
                             body=("body", "json", "item")),
     "send_multi/form": dict(method="POST", path="/multi", py="send_multi", params=[("mode", "mode", "query", None, "str"), ("x_m", "X-M", "header", None, "str")],
@@ -140,6 +150,10 @@ def drive(coro):
 
 
 BYTES = [b"", b"\x00\xff", b"abc"]
+import datetime as _dt
+
+DATETIMES = [_dt.datetime(2024, 3, 9, 14, 30, 0), _dt.datetime(1999, 12, 31, 23, 59, 59, 500000, tzinfo=_dt.timezone.utc)]
+DATES = [_dt.date(2024, 2, 29), _dt.date(1970, 1, 1)]
 
 
 def build_arg(models, kind, v):
@@ -159,6 +173,10 @@ def build_arg(models, kind, v):
         return models.Item(**kw)
     if kind == "bytes":
         return BYTES[v]
+    if kind == "datetime":
+        return DATETIMES[v]
+    if kind == "date":
+        return DATES[v]
     if kind == "filedict":
         import io
 
@@ -251,6 +269,10 @@ def expected_url(op, args):
         name = rest[i + 1:j]
         py = [p for p in op["params"] if p[1] == name and p[2] == "path"][0]
         v = args[py[0]]
+        if py[4] == "datetime":
+            v = DATETIMES[v].isoformat()
+        elif py[4] == "date":
+            v = DATES[v].isoformat()
         if isinstance(v, SymInt):
             v = symint_to_str(v)
         elif isinstance(v, int):
@@ -301,6 +323,8 @@ class RequestOb(Obligation):
                 return v
             if kind in ("bytes", "filedict"):
                 return e.choose(len(BYTES))
+            if kind in ("datetime", "date"):
+                return e.choose(2)
             raise KeyError(kind)
 
         for py, orig, where, req, kind in op["params"]:
@@ -338,7 +362,12 @@ class RequestOb(Obligation):
             if where == "path":
                 continue
             if py in args and args[py] is not None:
-                exp[where].append((orig, args[py]))
+                val = args[py]
+                if kind == "datetime":
+                    val = DATETIMES[val].isoformat()
+                elif kind == "date":
+                    val = DATES[val].isoformat()
+                exp[where].append((orig, val))
         for where, key in (("query", "params"), ("header", "headers"), ("cookie", "cookies")):
             if not _items_eq(kw.get(key), exp[where]):
                 return False, "%s sent %r, expected %r" % (key, kw.get(key), exp[where])
@@ -563,7 +592,7 @@ def run(tier, rep, only=None):
     rep.bounds = {"operations": sorted(OPS), "strings": "length 1 (quick) / <=2 (thorough) over 'a/ %&=é{'", "ints": "-999..99999", "optional_arguments": "every subset (None-ness solver-decided)",
                   "lemma_lengths": "sanitize idempotence <=3/5 over SIGMA; path variables <=4/6 over '/{}aA-_1'"}
     rep.stubs = ["transport -> recording stub at HttpTransport.request (httpx's URL/query encoding lies below it: outside the claim)", "response -> fixed 200 JSON object"]
-    rep.assumptions = ["template family T_req of 11 operation shapes stands for the request shapes", "OPS table in props/c04.py is the independent statement of each operation"]
+    rep.assumptions = ["template family T_req of 14 operation shapes stands for the request shapes", "OPS table in props/c04.py is the independent statement of each operation"]
     if err:
         rep.violations.append({"obligation": "generate(cl04)", "inputs": {"spec": "T_req"}, "detail": "generation failed: " + err})
         return
